@@ -24,7 +24,7 @@ ASSUMPTIONS = [
     "resampled bars: volume = sum, close = last, pool liquidity = last of the minute rows in the bin (the documented LINE_RULES)",
 ]
 MIN_NONTRIVIAL = {"quick": 2000, "thorough": 40000}
-REQUIRED_LABELS = ["cross.into", "cross.out", "cross.over", "close.on_lower", "close.on_upper", "stationary.in", "stationary.on_upper", "write_in_bar", "write_in_crossing_bar", "added.on_bar", "added.before_bar", "interval.5", "multi_position", "out_all_bar", "write_after_update"]
+REQUIRED_LABELS = ["cross.into", "cross.out", "cross.over", "close.on_lower", "close.on_upper", "stationary.in", "stationary.on_upper", "write_in_bar", "write_in_crossing_bar", "added.on_bar", "added.before_bar", "interval.5", "multi_position", "out_all_bar", "write_after_update", "u.earning", "u.lent_position.earning"]
 
 FEES = {"0.05": 10, "0.3": 60, "1": 200}
 
@@ -217,16 +217,106 @@ def body(case, ctx: Ctx):
     ctx.case(case, nontrivial, sorted(labels))
 
 
+# ------------------------------------------------------------------ the same formula inside multi-market universes
+class FeeObs:
+    """pending amounts of every pool position at the end of on_bar and at the start of after_bar (= across update())"""
+
+    def __init__(self):
+        self.pre, self.post = {}, {}
+
+    @staticmethod
+    def snap(u):
+        return {key: {(p.lower_tick, p.upper_tick): (pos.liquidity, pos.pending_amount0, pos.pending_amount1, bool(pos.transferred)) for p, pos in u.m[key].positions.items()} for key in ("uni", "squni") if key in u.m}
+
+    def on_built(self, u): ...
+    def op_done(self, u, phase, op, out): ...
+    def on_notify(self, u, action): ...
+    def on_action(self, u, action): ...
+    def on_finalize(self, u): ...
+
+    def phase_start(self, u, phase, snap):
+        if phase == "after":
+            self.post[snap.row_id] = self.snap(u)
+
+    def phase_end(self, u, phase, snap):
+        if phase == "on":
+            self.pre[snap.row_id] = self.snap(u)
+
+
+def body_universe(case, ctx: Ctx):
+    from vf import multi
+
+    obs = FeeObs()
+    u = ctx.guarded("build", case, multi.Universe, case, [obs])
+    if u is None:
+        ctx.case(case, False, ["build.failed"])
+        return
+    labels = {f"u.interval.{case['k']}"}
+    ok = ctx.guarded("loop", case, lambda: (world.quiet_run(u.actuator), True)[1])
+    if ok is None:
+        ctx.case(case, False, sorted(labels))
+        return
+    nontrivial = False
+    for key in ("uni", "squni"):
+        if key not in u.m:
+            continue
+        fr_ = u.frames[key]
+        pool = u.m[key].pool_info
+        rate = Fraction(pool.fee_rate)
+        d0, d1 = pool.token0.decimal, pool.token1.decimal
+        closes = [int(fr_["closeTick"].iloc[rows[-1]]) for rows in u.bins]
+        for b, rows in enumerate(u.bins):
+            if b not in obs.pre or b not in obs.post:
+                continue
+            p, c = (closes[b - 1] if b > 0 else closes[b]), closes[b]
+            pliq = int(fr_["currentLiquidity"].iloc[rows[-1]])
+            v0 = sum(int(fr_["inAmount0"].iloc[j]) for j in rows)
+            v1 = sum(int(fr_["inAmount1"].iloc[j]) for j in rows)
+            pre, post = obs.pre[b][key], obs.post[b][key]
+            own = sum(x[0] for x in pre.values())
+            for k_, (L, p0, p1, lent) in pre.items():
+                if k_ not in post or post[k_][0] != L:
+                    labels.add("u.position_changed_in_update")  # redeemed by a vault liquidation during update()
+                    continue
+                lo, hi = k_
+                f = frac(p, c, lo, hi)
+                share = multi.fr(L) / multi.fr(pliq + own) if pliq + own else Fraction(0)
+                if lent:
+                    labels.add("u.lent_position")
+                if L > 0 and f > 0 and (v0 or v1):
+                    nontrivial = True
+                    labels.add("u.earning")
+                    if lent:
+                        labels.add("u.lent_position.earning")
+                for nm, g, vol, dec, pend in (("token0", post[k_][1] - p0, v0, d0, post[k_][1]), ("token1", post[k_][2] - p1, v1, d1, post[k_][2])):
+                    e = Fraction(vol, 10**dec) * rate * f * share
+                    ulp = Fraction(abs(pend)) / 10**33
+                    ctx.check(abs(Fraction(g) - e) <= abs(e) / 10**25 + Fraction(1, 10**45) + ulp, "universe.fee.amount",
+                              lambda: f"{key} bar {b} ({u.bars[b]}): position {k_}{' (lent to a vault)' if lent else ''} L={L} earned {g} {nm}; volume {vol} x rate x path fraction {f} ({p}->{c}) x {L}/({pliq}+{own}) = {float(e)!r}", case)
+    ctx.case(case, nontrivial, sorted(labels), key=[case["order"], case["k"], case["prog"], case.get("uni"), case.get("sq")])
+
+
+def st_universe_case():
+    from vf.gen.multi import st_universe
+
+    return st_universe("loop", kinds=["uni", "sq", "aave", "opt"], need=None, max_bars=6, max_ops=10)
+
+
+BODIES = {"loop": (st_case, body), "universe": (st_universe_case, body_universe)}
+
+
 def shards(tier, seed):
     n = 350 if tier == "quick" else 7000
-    return [{"sub": "loop", "idx": i, "n": n, "seed": derive_seed(seed, PROPERTY, "loop", i)} for i in range(16)]
+    nu = 60 if tier == "quick" else 1200
+    return [{"sub": "loop", "idx": i, "n": n, "seed": derive_seed(seed, PROPERTY, "loop", i)} for i in range(16)] + [{"sub": "universe", "idx": i, "n": nu, "seed": derive_seed(seed, PROPERTY, "universe", i)} for i in range(16)]
 
 
 def run_shard(spec):
     ctx = Ctx(PROPERTY, spec["sub"])
-    v = run_given(ctx, st_case(), body, spec["n"], spec["seed"])
+    strat, fn = BODIES[spec["sub"]]
+    v = run_given(ctx, strat(), fn, spec["n"], spec["seed"])
     return ctx.result(v)
 
 
 def replay(rec):
-    return replay_body(PROPERTY, body, rec["case"], rec["sub"])
+    return replay_body(PROPERTY, BODIES[rec.get("sub") or "loop"][1], rec["case"], rec["sub"])
